@@ -149,6 +149,10 @@ class PyFront:
         if isinstance(f, ast.Name):
             if f.id == 'float':
                 return self.ev(b, node.args[0])
+            if f.id == 'f32':
+                # Fortran default-real literal (f2ir.py): exact value of its binary32 rounding
+                from ir import f32_rat
+                return S(f32_rat(node.args[0].value))
             if f.id in self.known:
                 pk, nout, outk = self.known[f.id]
                 args = []
